@@ -339,3 +339,121 @@ Proof.
     cbn [last_break]. rewrite (IH Hr), Ha. reflexivity. }
   rewrite E. reflexivity.
 Qed.
+
+(** *** Every candidate extends the typed word *)
+Lemma prefix_split s : forall t, String.prefix s t = true -> t = append s (sdrop (String.length s) t).
+Proof.
+  induction s as [| a s IH]; intros t H; [reflexivity |].
+  destruct t as [| b t]; cbn [String.prefix] in H; [discriminate |].
+  destruct (Ascii.ascii_dec a b) as [-> | Ne]; [| discriminate].
+  cbn [String.length sdrop append]. f_equal. apply IH. assumption.
+Qed.
+
+Lemma prefix_app d : forall r t, String.prefix (append d r) (append d t) = String.prefix r t.
+Proof.
+  induction d as [| a d IH]; intros r t; [reflexivity |].
+  cbn [append String.prefix]. destruct (Ascii.ascii_dec a a) as [_ | Ne]; [apply IH | contradiction].
+Qed.
+
+Lemma prefix_append_r p : forall t x, String.prefix p t = true -> String.prefix p (append t x) = true.
+Proof.
+  induction p as [| a p IH]; intros t x H; [destruct (append t x); reflexivity |].
+  destruct t as [| b t]; cbn [String.prefix] in H; [discriminate |].
+  cbn [append String.prefix]. destruct (Ascii.ascii_dec a b); [apply IH; assumption | discriminate].
+Qed.
+
+Lemma append_nil_r s : append s EmptyString = s.
+Proof. induction s as [| a s IH]; cbn; [reflexivity | rewrite IH; reflexivity]. Qed.
+
+Lemma append_assoc a : forall b c, append (append a b) c = append a (append b c).
+Proof. induction a as [| x a IH]; intros b c; cbn; [reflexivity | rewrite IH; reflexivity]. Qed.
+
+Lemma wconsume_split en a r tok rest : In (tok, rest) (wconsume en a r) -> r = append tok rest.
+Proof.
+  destruct a as [t d l | c l |]; cbn [wconsume].
+  - destruct (nonempty t && String.prefix t r) eqn:E; [| intros []].
+    apply andb_true_iff in E. destruct E as [_ E].
+    intros [H | []]. inversion H; subst. apply prefix_split. assumption.
+  - intro H. apply in_flat_map in H. destruct H as [o [_ H]].
+    destruct (nonempty o && String.prefix o r) eqn:E; [| destruct H].
+    apply andb_true_iff in E. destruct E as [_ E].
+    destruct H as [H | []]. inversion H; subst. apply prefix_split. assumption.
+  - destruct (nonempty r); [| intros []]. intros [H | []]. inversion H; subst.
+    symmetry. apply append_nil_r.
+Qed.
+
+(** Every split of a typed text puts it back together. *)
+Lemma wsplits_inv en : forall fuel e d r e' d' r',
+    In (e', d', r') (wsplits en fuel e d r) -> append d' r' = append d r.
+Proof.
+  induction fuel as [| f IH]; intros e d r e' d' r' H; cbn [wsplits] in H.
+  - destruct H as [H | []]. inversion H; subst. reflexivity.
+  - destruct H as [H | H]; [inversion H; subst; reflexivity |].
+    apply in_flat_map in H. destruct H as [[a k] [_ H]]. cbn [fst snd] in H.
+    apply in_flat_map in H. destruct H as [[tok rest] [Hc H]]. cbn [fst snd] in H.
+    apply IH in H. rewrite H. apply wconsume_split in Hc. subst r. apply append_assoc.
+Qed.
+
+Lemma wcands_prefix en x p l c : In (l, c) (wcands en x p) -> String.prefix p c = true.
+Proof.
+  unfold wcands, wsplits_of. intro H. apply in_flat_map in H. destruct H as [[[e' d] r] [Hs H]].
+  apply wsplits_inv in Hs. cbn [append] in Hs. subst p.
+  apply in_flat_map in H. destruct H as [[a k] [_ H]]. cbn [fst] in H.
+  destruct a as [t dd lv | cc lv |].
+  - destruct (String.prefix r t) eqn:E; [| destruct H]. destruct H as [H | []]. inversion H; subst.
+    rewrite prefix_app. assumption.
+  - apply in_map_iff in H. destruct H as [o [H Ho]]. inversion H; subst.
+    apply filter_In in Ho. destruct Ho as [_ Ho]. rewrite prefix_app. assumption.
+  - destruct H.
+Qed.
+
+Lemma wproper_incl en x p c : In c (wproper en x p) -> exists l, In (l, c) (wcands en x p) /\ c <> p.
+Proof.
+  unfold wproper. intro H. apply lowest_spec in H. destruct H as [l [H _]].
+  apply filter_In in H. destruct H as [H Hne]. cbn [snd] in Hne.
+  exists l. split; [assumption |]. intro E. subst. rewrite String.eqb_refl in Hne. discriminate.
+Qed.
+
+Theorem state_cands_prefix en s p l c : In (l, c) (state_cands en s p) -> String.prefix p c = true.
+Proof.
+  unfold state_cands. intro H. apply in_flat_map in H. destruct H as [[a k] [_ H]]. cbn [fst] in H.
+  destruct a as [t d lv | cc lv | | x lv]; cbn [item_cands] in H.
+  - destruct (String.prefix p t) eqn:E; [| destruct H]. destruct H as [H | []]. inversion H; subst.
+    apply prefix_append_r. assumption.
+  - apply in_map_iff in H. destruct H as [o [H Ho]]. inversion H; subst.
+    apply filter_In in Ho. destruct Ho as [_ Ho]. assumption.
+  - destruct H.
+  - apply in_map_iff in H. destruct H as [o [H Ho]]. inversion H; subst.
+    apply wproper_incl in Ho. destruct Ho as [l0 [Ho _]]. eapply wcands_prefix. eassumption.
+Qed.
+
+(** The answer, spelled out: status 1 exactly when the words cannot be matched; otherwise every
+    required candidate is (the visible part of) a candidate of the reached point that extends
+    the typed word and whose level no other such candidate undercuts; everything required is
+    allowed, and the only other thing allowed is the typed word itself. *)
+Theorem complete_spec e en ws p :
+  match complete e en ws p with
+  | None => matched en e ws = false
+  | Some (req, al) =>
+      matched en e ws = true
+      /\ (forall c, In c req <->
+                    exists l c0, c = strip (e_wordbreaks en) p c0
+                                 /\ In (l, c0) (state_cands en (run en (start e) ws) p)
+                                 /\ String.prefix p c0 = true
+                                 /\ forall l' c', In (l', c') (state_cands en (run en (start e) ws) p) -> l <= l')
+      /\ (forall c, In c al -> In c req \/ c = strip (e_wordbreaks en) p p)
+      /\ incl req al
+  end.
+Proof.
+  unfold complete, matched. destruct (run en (start e) ws) as [| k0 s0] eqn:E; [reflexivity |].
+  set (s := k0 :: s0). split; [reflexivity | split; [| split]].
+  - intro c. rewrite in_map_iff. split.
+    + intros [c0 [<- Hc0]]. apply lowest_spec in Hc0. destruct Hc0 as [l [Hin Hmin]].
+      exists l, c0. split; [reflexivity | split; [assumption | split; [| assumption]]].
+      eapply state_cands_prefix. eassumption.
+    + intros [l [c0 [-> [Hin [_ Hmin]]]]]. exists c0. split; [reflexivity |].
+      apply lowest_spec. exists l. split; assumption.
+  - intros c Hc. rewrite map_app in Hc. apply in_app_or in Hc. destruct Hc as [Hc | Hc]; [left; assumption |].
+    destruct (state_identical en s p); [| destruct Hc]. destruct Hc as [<- | []]. right; reflexivity.
+  - intros c Hc. rewrite map_app. apply in_or_app. left; assumption.
+Qed.
